@@ -177,3 +177,32 @@ package parser
 //@ func Rule.Name [C03]
 //@   pure
 //@   ensures result == ruleName(r)
+
+// ---------------------------------------------------------------------------------------------
+// C03: "identical" (which makes pint ci treat a rule as unmodified) implies that the compared content is the same:
+// same kind, same expression / for / keep_firing_for text, as many labels, annotations and comments. (The alert /
+// record name is compared through a pointer to a struct-valued field, which the memory model does not relate to
+// the field: not stated here; matchEntries only compares rules that findRulesByName paired by kind and name.)
+//@ spec func nodeSame(a *YamlNode, b *YamlNode) bool = (a == nil) == (b == nil) && (a == nil || a.Value == b.Value)
+//@ spec func itemCount(m *YamlMap) int = m != nil ? len(m.Items) : 0
+//@ func YamlNode.IsIdentical [C03]
+//@   ensures result <==> nodeSame(yn, b)
+//@ func PromQLExpr.IsIdentical [C03]
+//@   ensures result <==> pqle.Value.Value == b.Value.Value
+//@ func YamlMap.IsIdentical [C03]
+//@   ensures result ==> itemCount(ym) == itemCount(b)
+//@   ensures itemCount(ym) == 0 && itemCount(b) == 0 ==> result
+//@   loop 1 invariant 0 <= iter1 && iter1 <= len(ym.Items) && len(al) == iter1 && ym == old(ym) && b == old(b) && len(ym.Items) == old(len(ym.Items)) && len(b.Items) == old(len(b.Items))
+//@   loop 2 invariant 0 <= iter2 && iter2 <= len(b.Items) && len(bl) == iter2 && ym == old(ym) && b == old(b) && len(b.Items) == old(len(b.Items)) && len(al) == old(itemCount(ym))
+//@ func AlertingRule.IsIdentical [C03]
+//@   ensures result ==> (ar == nil) == (b == nil)
+//@   ensures result && ar != nil ==> ar.Expr.Value.Value == b.Expr.Value.Value && nodeSame(ar.For, b.For) && nodeSame(ar.KeepFiringFor, b.KeepFiringFor)
+//@   ensures result && ar != nil ==> itemCount(ar.Labels) == itemCount(b.Labels) && itemCount(ar.Annotations) == itemCount(b.Annotations)
+//@ func RecordingRule.IsIdentical [C03]
+//@   ensures result ==> (rr == nil) == (b == nil)
+//@   ensures result && rr != nil ==> rr.Expr.Value.Value == b.Expr.Value.Value && itemCount(rr.Labels) == itemCount(b.Labels)
+//@ func Rule.IsIdentical [C03]
+//@   ensures result ==> ruleType(r) == ruleType(b) && (r.AlertingRule == nil) == (b.AlertingRule == nil) && (r.RecordingRule == nil) == (b.RecordingRule == nil)
+//@   ensures result ==> len(r.Comments) == len(b.Comments)
+//@   loop 1 invariant 0 <= iter1 && iter1 <= len(r.Comments) && len(ac) == iter1
+//@   loop 2 invariant 0 <= iter2 && iter2 <= len(b.Comments) && len(bc) == iter2 && len(ac) == len(r.Comments)
